@@ -72,6 +72,36 @@ class Rig:
         self.is_random = len(ds) >= 2
 
 
+def stacked_bundle(b):
+    """The same configuration behind a harness-side `Wrapper` subclass whose reset/step differ observably from
+    the base environment's (every numeric observation leaf + 1; masks untouched).  'The wrapped environment' of the
+    property is then this wrapper, not the innermost environment."""
+    import jax
+    import jax.numpy as jnp
+
+    from jumanji.wrappers import Wrapper
+
+    class Tagged(Wrapper):
+        @staticmethod
+        def _tag(ts):
+            obs = jax.tree_util.tree_map(
+                lambda x: x + 1 if (jnp.issubdtype(x.dtype, jnp.number) and x.dtype != jnp.bool_) else x, ts.observation)
+            return ts.replace(observation=obs)
+
+        def reset(self, key):
+            s, ts = self._env.reset(key)
+            return s, self._tag(ts)
+
+        def step(self, state, action):
+            s, ts = self._env.step(state, action)
+            return s, self._tag(ts)
+
+    key = (b.name, b.entry, "stacked")
+    if key not in envs._BUNDLES:
+        envs._BUNDLES[key] = envs.Bundle(b.name, b.entry, env=Tagged(b.env))
+    return envs._BUNDLES[key]
+
+
 def expect_with_extras(ts, flag):
     if not flag:
         return ts
@@ -207,21 +237,30 @@ def work_items(tier, flt):
                 items.append({"env": env, "entry": e, "flag": flag,
                               "n": max(2, int((10 if tier == "quick" else 60) * scale)),
                               "cost": {"BinPack": 8, "MMST": 8, "PacMan": 4, "Connector": 3}.get(env, 1)})
+    # the auto-reset wrapper stacked over another Wrapper (not only over bare environments)
+    for env, flag in ((("Snake", True), ("Knapsack", False)) if tier == "quick" else
+                      (("Snake", True), ("Knapsack", False), ("Game2048", False), ("Maze", True), ("Connector", True))):
+        if envs.select_envs([env], flt):
+            items.append({"env": env, "entry": SHORT_ENTRY[env], "flag": flag, "stack": True,
+                          "n": max(2, int((6 if tier == "quick" else 30) * scale)), "cost": 1})
     return items
 
 
 def run_item(item, seed, tier):
     ctx = Ctx(PROPERTY, item)
     env, entry, flag = item["env"], item["entry"], item["flag"]
-    with ctx.guard(env, {"env": env, "entry": entry, "flag": flag, "stage": "construct"}):
+    with ctx.guard(env, {"env": env, "entry": entry, "flag": flag, "stage": "construct", "stack": item.get("stack", False)}):
         b = envs.bundle(env, entry)
+        if item.get("stack"):
+            b = stacked_bundle(b)
         rig = Rig(b, flag)
 
         def one(key, plan):
-            case = {"env": env, "entry": entry, "flag": flag, "key": list(key), "actions": []}
+            case = {"env": env, "entry": entry, "flag": flag, "key": list(key), "actions": [],
+                    "stack": bool(item.get("stack"))}
 
             def fail(oracle, sig, msg):
-                ctx.fail(oracle, env, sig, f"{msg} [entry={entry} flag={flag} key={list(key)}]", case,
+                ctx.fail(oracle, env, sig, f"{msg} [entry={entry} flag={flag} stack={case['stack']} key={list(key)}]", case,
                          size=len(case["actions"]))
 
             with ctx.guard(env, case, size=10**6):
@@ -246,6 +285,8 @@ def replay(case):
     env = case["env"]
     with ctx.guard(env, case):
         b = envs.bundle(env, case["entry"])
+        if case.get("stack"):
+            b = stacked_bundle(b)
         rig = Rig(b, case["flag"])
         if case.get("stage") == "construct":
             return []
